@@ -113,9 +113,13 @@ CpTrue == (Cardinality(cfg.liars) < Required) =>
                 \E b \in BlockIds(world) : Num(world, b) = k * Interval /\ cpFinal'[k + 1] = b
 \* C07, consequence 2: they cannot block the agreement of the rest either -- once every request of the honest
 \* peers (all proven at the leaf) is answered, the final check point is the last one those peers can deliver
+\* ("the rest": the honest peers proven at the leaf; everybody else that takes part in the agreement -- liars, but
+\*  also an honest peer that is proven at a lower header and therefore has a shorter vector -- counts against the
+\*  bound: finalize_check_points tolerates up to Required - 1 vectors that are shorter than the agreed prefix)
 CpNotBlocked(honest, leaf) ==
-    LET hp == {p \in honest : HasProof(peer[p]) /\ peer[p].proved = leaf} IN
-    (Cardinality(cfg.liars) < Required /\ Cardinality(hp) >= Required) =>
+    LET hp == {p \in honest : HasProof(peer[p]) /\ peer[p].proved = leaf}
+        others == {p \in PeerNames : HasProof(peer[p])} \ hp
+    IN (Cardinality(cfg.liars) < Required /\ Cardinality(others) < Required /\ Cardinality(hp) >= Required) =>
         (Len(cpFinal) - 1) * Interval + 2 * Interval > Num(world, leaf)
 
 \* the latest hashes stored for peer p / the cached hashes are the true ones of the chain ending in block t
